@@ -43,10 +43,10 @@ def cases(ctx):
     n = ctx.budget(48, 320)
     for it in range(n):
         yield {'kind': 'pyhs', 'eta': float(rng.uniform(0.02, 0.47)), 'd': float(rng.choice([1.0, 1.0, 0.8, 1.2])), 'kT': float(10 ** rng.uniform(np.log10(0.3), 1)),
-               'levels': 4, 'hc': bool(rng.random() < 0.3), 'reuse': bool(rng.random() < 0.4), 'via': str(rng.choice(G.VIAS)), 'kT_via': str(rng.choice(['ctor', 'assign']))}
+               'levels': 4, 'hc': bool(rng.random() < 0.3), 'rmax': float(rng.choice([25.6, 25.6, 20.5, 28.7])), 'reuse': bool(rng.random() < 0.4), 'via': str(rng.choice(G.VIAS)), 'kT_via': str(rng.choice(['ctor', 'assign']))}
     n = ctx.budget(84, 630)
     for it in range(n):
-        yield {'kind': 'dilute', 'pot': POTS[it % len(POTS)], 'clo': ['PY', 'HNC', 'MSA'][(it // len(POTS)) % 3], 'kT': float(rng.choice([1.0, 2.5, 0.7, 4.0])),
+        yield {'kind': 'dilute', 'pot': POTS[it % len(POTS)], 'clo': ['PY', 'HNC', 'MSA'][(it // len(POTS)) % 3], 'hc': bool(rng.random() < 0.4), 'rmax': float(rng.choice([25.6, 25.6, 20.5])), 'kT': float(rng.choice([1.0, 2.5, 0.7, 4.0])),
                'eps': float(rng.uniform(0.2, 1.5)) * float(rng.choice([-1, 1])), 'alpha': float(rng.uniform(0.3, 1.0)), 'levels': 3,
                'via': str(rng.choice(G.VIAS)), 'kT_via': str(rng.choice(['ctor', 'assign']))}
 
@@ -101,7 +101,7 @@ def run_pyhs(ctx, case):
     rows = []
     for lv in range(int(case['levels'])):
         dr = d / 10.0 / 2 ** lv
-        L = int(round(25.6 * d / dr))
+        L = int(round(case.get('rmax', 25.6) * d / dr))          # 256..2048, or 205/287 x 2^n (prime factors 41 and 7)
         # density continuation towards the physical branch (the discrete equations have spurious roots at high density)
         guess = None
         res = None
@@ -172,19 +172,21 @@ def dilute_spec(case, dr):
     eps = case['eps']
     ps = {'HS': {'t': 'HS'}, 'HCLJ': {'t': 'HCLJ', 'eps': eps}, 'EXP': {'t': 'EXP', 'eps': eps, 'alpha': case['alpha']}, 'LJ': {'t': 'LJ', 'eps': abs(eps)},
           'LJcs': {'t': 'LJ', 'eps': abs(eps), 'rcut': 2.5, 'shift': True}, 'LJc': {'t': 'LJ', 'eps': abs(eps), 'rcut': 3.0, 'shift': False}, 'WCA': {'t': 'WCA', 'eps': abs(eps)}}[pot]
-    cs = {'t': case['clo'], 'hc': case['clo'] == 'MSA'}
-    L = int(round(25.6 / dr))
+    cs = {'t': case['clo'], 'hc': case['clo'] == 'MSA' or bool(case.get('hc'))}
+    L = int(round(case.get('rmax', 25.6) / dr))
     return dict(types=['A'], dr=dr, L=L, d={'A': 1.0}, rho={'A': 6e-7 / math.pi}, kT=case['kT'], pot={'A|A': ps}, clo={'A|A': cs}, om={'A|A': {'t': 'SS'}},
                 via=case.get('via', 'dr'), kT_via=case.get('kT_via', 'ctor'))
 
 
-def h_exact(ps, clo, kT, x):
+def h_exact(ps, clo, kT, x, hc=False):
     """dilute-limit h(r) at scalar distances"""
     x = np.atleast_1d(np.asarray(x, dtype=float))
     with np.errstate(all='ignore'):
         u = R.u_ref(dict(ps, hv=np.inf), x, 1.0) / kT
         if clo == 'MSA':
             return np.where(x > 1.0, -np.where(np.isfinite(u), u, 0.0), -1.0)
+        if hc:
+            return np.where(x > 1.0, np.exp(-u) - 1.0, -1.0)
         return np.exp(-u) - 1.0
 
 
@@ -209,7 +211,7 @@ def run_dilute(ctx, case):
     for row in rows:
         ctx.hook('dilute.g_pointwise')
         m = R.branch_mask(ps, row['r'], 1.0)
-        gex = h_exact(ps, case['clo'], case['kT'], row['r']) + 1.0
+        gex = h_exact(ps, case['clo'], case['kT'], row['r'], cs['hc']) + 1.0
         err = float(np.abs(row['g'] - gex)[m].max())
         # the first density correction is O(rho * Int f f) relative: up to ~3e-5 for the strongest attractions generated
         err = float((np.abs(row['g'] - gex) / (1 + np.abs(gex)))[m].max())
@@ -221,13 +223,14 @@ def run_dilute(ctx, case):
     # B2: the reported value is -1/2 of the quadratic extrapolation of h(k) through the three lowest wavenumbers (dk = pi/r_max is the
     # same on every level), so the reference is that extrapolation of the EXACT transform; its distance to the volume integral is a
     # k-discretisation effect that does not depend on dr.  Errors are scaled by 2 pi Int |h| r^2 dr because B2 itself can vanish.
-    pts = sorted(set([1.0] + [x for x in R.special_points(ps, 1.0) if x < 25.6]))
-    edges = [0.0] + pts + [25.6]
-    hfun = lambda x: float(h_exact(ps, case['clo'], case['kT'], x)[0])
+    rmax = float(case.get('rmax', 25.6))
+    pts = sorted(set([1.0] + [x for x in R.special_points(ps, 1.0) if x < rmax]))
+    edges = [0.0] + pts + [rmax]
+    hfun = lambda x: float(h_exact(ps, case['clo'], case['kT'], x, cs['hc'])[0])
     f = lambda x: hfun(x) * x * x
     B2ex = -2 * math.pi * sum(quad(f, a, b, limit=200)[0] for a, b in zip(edges[:-1], edges[1:]))
     scale = 2 * math.pi * sum(quad(lambda x: abs(f(x)), a, b, limit=200)[0] for a, b in zip(edges[:-1], edges[1:]))
-    k3 = R.grids(int(round(25.6 / 0.05)), 0.05)[1][:3]
+    k3 = R.grids(int(round(rmax / 0.05)), 0.05)[1][:3]
     hk = [4 * math.pi / kk * sum(quad(lambda x: hfun(x) * x, a, b, weight='sin', wvar=kk, limit=200)[0] for a, b in zip(edges[:-1], edges[1:])) for kk in k3]
     B2ref = -0.5 * float(R.quad0(k3, np.array(hk)))
     ctx.observe('B2_k_extrapolation_vs_volume_integral', abs(B2ref - B2ex) / scale)
